@@ -1,1 +1,483 @@
-/-! C11 — property theorems (none yet). -/
+import Req.Client.Redirect
+import Req.Client.Authority
+import Req.Lemmas.C11
+import Req.Lemmas.C11Host
+import Req.Lemmas.C11Chain
+import Req.Lemmas.C11Hdr
+/-!
+C11 — Redirect policies are enforced exactly.
+
+Model: `Req.Redirect` (redirect.go + the `SetRedirectPolicy` closure of client.go + the part of
+net/http's redirect loop that decides whether the next hop is requested).
+Spec:  `Req.Authority` (RFC 3986 authority, `specHost`, `specDomain`), written independently.
+
+Sections
+1. host identity: `getHostname`/`getDomain` on the rendering of ANY well-formed authority
+   equal the spec (`hostname_spec`, `domain_spec`), hence the four `_iff` theorems; every
+   RFC 3986 authority is well-formed (`rfc_wf`); the pre-fix code violates all four
+   (`legacy_*` counter-examples, replayed on the real code by lane `legacy`).
+2. hop limit, disabled redirects, composition (`max_redirect`, `no_redirect`, `compose_all`,
+   `compose_first_refusal`).
+3. chains: `no_request_without_permission`, `stops_only_on_refusal`, `sent_hosts_prefix`,
+   `chain_bound`, `chain_max_exact`, `no_redirect_never`.
+4. headers: `always_copy_exact`, `sensitive_arrives_only_if`.
+-/
+namespace Req.Props.C11
+open Req.Proto Req.Ascii Req.Redirect Req.Authority Req.Lemmas.C11
+
+/-! ## 1. Host identity -/
+
+/-- `getHostname` of the text `url.URL.Host` carries = the URL's hostname, lower-cased: for
+every well-formed authority (name in any case, trailing dot, IPv4, bracketed IPv6 with or
+without zone; no port, empty port, numeric port). -/
+theorem hostname_spec (a : Authority) (h : WfAuthority a) : getHostname a.render = specHost a :=
+  getHostname_render a h
+
+/-- `getDomain` = IP literals whole, names without trailing dot minus the first label when
+there are at least three. -/
+theorem domain_spec (a : Authority) (h : WfAuthority a) : getDomain a.render = specDomain a :=
+  getDomain_render a h
+
+/-- A via list whose first (original) request went to authority `b`. -/
+def viaOf (b : Authority) (hdr : Headers := []) (rest : List Hop := []) : Via :=
+  { first := ⟨b.render, hdr⟩, rest := rest }
+
+/-- **same_host_iff**: SameHostRedirectPolicy follows a redirect to `a` exactly when `a` and the
+original request's authority `b` have the same hostname (case-insensitive, port ignored, IP
+literals whole) — whatever else is in `via`. -/
+theorem same_host_iff (a b : Authority) (ha : WfAuthority a) (hb : WfAuthority b)
+    (hdr : Headers) (rest : List Hop) :
+    sameHostRedirectPolicy.check a.render (viaOf b hdr rest) = .allow ↔ specHost a = specHost b := by
+  simp only [sameHostRedirectPolicy, viaOf, hostname_spec a ha, hostname_spec b hb]
+  by_cases h : specHost a = specHost b <;> simp [h]
+
+/-- **same_domain_iff** -/
+theorem same_domain_iff (a b : Authority) (ha : WfAuthority a) (hb : WfAuthority b)
+    (hdr : Headers) (rest : List Hop) :
+    sameDomainRedirectPolicy.check a.render (viaOf b hdr rest) = .allow ↔ specDomain a = specDomain b := by
+  simp only [sameDomainRedirectPolicy, viaOf, domain_spec a ha, domain_spec b hb]
+  by_cases h : specDomain a = specDomain b <;> simp [h]
+
+theorem specHost_lower (a : Authority) : lower (specHost a) = specHost a := lower_idem _
+
+theorem specDomain_lower (a : Authority) : lower (specDomain a) = specDomain a := by
+  cases a with
+  | mk host port =>
+    cases host <;> simp only [specDomain] <;> first | exact lower_idem _ | exact specHost_lower _
+
+/-- **allowed_host_iff**: AllowedHostRedirectPolicy(hosts…) follows a redirect to `a` exactly
+when one of the configured hosts — written in ANY spelling (case, port, brackets) — has the
+same hostname. An empty list allows nothing. -/
+theorem allowed_host_iff (hosts : List Authority) (a : Authority)
+    (hh : ∀ x ∈ hosts, WfAuthority x) (ha : WfAuthority a) (via : Via) :
+    (allowedHostRedirectPolicy (hosts.map (·.render))).check a.render via = .allow ↔
+      ∃ x ∈ hosts, specHost x = specHost a := by
+  simp only [allowedHostRedirectPolicy, hostname_spec a ha, List.map_map]
+  have hm : (hosts.map ((fun h => lower (getHostname h)) ∘ fun x => x.render)) = hosts.map specHost := by
+    apply List.map_congr_left
+    intro x hx
+    simp [hostname_spec x (hh x hx), specHost_lower]
+  rw [hm]
+  by_cases h : (hosts.map specHost).contains (specHost a) = true
+  · simp only [h, if_true, true_iff]
+    obtain ⟨x, hx, he⟩ := List.mem_map.mp (List.contains_iff_mem.mp h)
+    exact ⟨x, hx, he⟩
+  · simp only [h, Bool.false_eq_true, if_false, false_iff, reduceCtorEq]
+    rintro ⟨x, hx, he⟩
+    exact h (List.contains_iff_mem.mpr (List.mem_map.mpr ⟨x, hx, he⟩))
+
+/-- **allowed_domain_iff** -/
+theorem allowed_domain_iff (hosts : List Authority) (a : Authority)
+    (hh : ∀ x ∈ hosts, WfAuthority x) (ha : WfAuthority a) (via : Via) :
+    (allowedDomainRedirectPolicy (hosts.map (·.render))).check a.render via = .allow ↔
+      ∃ x ∈ hosts, specDomain x = specDomain a := by
+  simp only [allowedDomainRedirectPolicy, domain_spec a ha, List.map_map]
+  have hm : (hosts.map ((fun h => lower (getDomain h)) ∘ fun x => x.render)) = hosts.map specDomain := by
+    apply List.map_congr_left
+    intro x hx
+    simp [domain_spec x (hh x hx), specDomain_lower]
+  rw [hm]
+  by_cases h : (hosts.map specDomain).contains (specDomain a) = true
+  · simp only [h, if_true, true_iff]
+    obtain ⟨x, hx, he⟩ := List.mem_map.mp (List.contains_iff_mem.mp h)
+    exact ⟨x, hx, he⟩
+  · simp only [h, Bool.false_eq_true, if_false, false_iff, reduceCtorEq]
+    rintro ⟨x, hx, he⟩
+    exact h (List.contains_iff_mem.mpr (List.mem_map.mpr ⟨x, hx, he⟩))
+
+/-! Non-vacuity: concrete authorities of each kind are well-formed, and the policies separate
+what the pre-fix code confused. -/
+
+/-- `[::1]`, `[::2]`, `[::1]:80` -/
+def ex_v6_1 : Authority := ⟨.ip6 [58, 58, 49] none, none⟩
+def ex_v6_2 : Authority := ⟨.ip6 [58, 58, 50] none, none⟩
+def ex_v6_1p : Authority := ⟨.ip6 [58, 58, 49] none, some [56, 48]⟩
+/-- `10.2.3.4`, `99.2.3.4` -/
+def ex_v4_a : Authority := ⟨.ip4 [49, 48] [50] [51] [52], none⟩
+def ex_v4_b : Authority := ⟨.ip4 [57, 57] [50] [51] [52], none⟩
+/-- `example.com.`, `evil.com.`, `WWW.Example.com:` -/
+def ex_n_a : Authority := ⟨.name [[101, 120, 97, 109, 112, 108, 101], [99, 111, 109]] true, none⟩
+def ex_n_b : Authority := ⟨.name [[101, 118, 105, 108], [99, 111, 109]] true, none⟩
+def ex_n_c : Authority :=
+  ⟨.name [[87, 87, 87], [69, 120, 97, 109, 112, 108, 101], [99, 111, 109]] false, some []⟩
+
+example : sameHostRedirectPolicy.check ex_v6_1p.render (viaOf ex_v6_1) = .allow := by decide
+example : sameHostRedirectPolicy.check ex_v6_2.render (viaOf ex_v6_1) = .deny := by decide
+example : sameDomainRedirectPolicy.check ex_v4_b.render (viaOf ex_v4_a) = .deny := by decide
+example : sameDomainRedirectPolicy.check ex_n_b.render (viaOf ex_n_a) = .deny := by decide
+example : sameDomainRedirectPolicy.check ex_n_c.render (viaOf ex_n_a) = .allow := by decide
+example : (allowedHostRedirectPolicy [ex_v6_1p.render]).check ex_v6_1.render (viaOf ex_n_a) = .allow := by decide
+example : (allowedHostRedirectPolicy [ex_v6_1p.render]).check ex_v6_2.render (viaOf ex_n_a) = .deny := by decide
+
+/-! ### The pre-fix code violates every one of the four equivalences
+
+Stated on `Legacy.*`, the byte-exact model of the code before fixes/C11-1 (tied to the real
+`net.SplitHostPort` by lanes `split` and `legacy`); these are the input classes lane `host`
+reports as class `hostident-legacy` while the patch is not applied. -/
+
+/-- `[::1]` and `[::2]` (no port): both hostnames were "" — any two port-less IPv6 literals
+were "the same host". -/
+theorem legacy_same_host_ipv6 :
+    Legacy.getHostname ex_v6_1.render = Legacy.getHostname ex_v6_2.render ∧
+    specHost ex_v6_1 ≠ specHost ex_v6_2 := by decide
+
+/-- `10.2.3.4` and `99.2.3.4` were "the same domain" (`2.3.4`). -/
+theorem legacy_same_domain_ipv4 :
+    Legacy.getDomain ex_v4_a.render = Legacy.getDomain ex_v4_b.render ∧
+    specDomain ex_v4_a ≠ specDomain ex_v4_b := by decide
+
+/-- `example.com.` and `evil.com.` were "the same domain" (`com.`). -/
+theorem legacy_same_domain_trailing_dot :
+    Legacy.getDomain ex_n_a.render = Legacy.getDomain ex_n_b.render ∧
+    specDomain ex_n_a ≠ specDomain ex_n_b := by decide
+
+/-- …and `[::1]:80` was NOT the same host as `[::1]`. -/
+theorem legacy_port_ipv6_differs :
+    Legacy.getHostname ex_v6_1p.render ≠ Legacy.getHostname ex_v6_1.render ∧
+    specHost ex_v6_1p = specHost ex_v6_1 := by decide
+
+/-! ### Every RFC 3986 authority is well-formed -/
+
+set_option maxRecDepth 100000 in
+theorem regNameByte_ok : ∀ c : UInt8, isRegNameByte c = true → labelByteOk c = true := by
+  apply forall_uint8; decide
+
+theorem splitDoubleColon_mem (s : Bytes) (l r : Bytes) (h : splitDoubleColon s = some (l, r)) :
+    (58 : UInt8) ∈ s := by
+  induction s generalizing l r with
+  | nil => simp [splitDoubleColon] at h
+  | cons a t ih =>
+    cases t with
+    | nil => simp [splitDoubleColon] at h
+    | cons b rest =>
+      unfold splitDoubleColon at h
+      split at h
+      · rename_i hab; simp [hab.1]
+      · cases hr : splitDoubleColon (b :: rest) with
+        | none => rw [hr] at h; simp at h
+        | some lr => exact List.mem_cons_of_mem _ (ih lr.1 lr.2 hr)
+
+theorem ipv6_has_colon (s : Bytes) (h : isIPv6address s = true) : (58 : UInt8) ∈ s := by
+  unfold isIPv6address at h
+  split at h
+  · -- no "::": eight groups, hence at least one ":"
+    rename_i hnone
+    apply Classical.byContradiction
+    intro hno
+    have hp : pieces 58 s = [s] := by rw [pieces_eq_splitOn]; exact splitOn_no_sep hno
+    simp only [groupCount, hp] at h
+    by_cases hs : s.isEmpty = true
+    · simp [hs] at h
+    · simp only [hs, Bool.false_eq_true, if_false, List.getLast?_singleton, List.dropLast_singleton,
+        List.all_nil, if_true, List.length_singleton] at h
+      split at h
+      · simp at h
+      · split at h <;> simp at h
+  · rename_i l r hsome
+    exact splitDoubleColon_mem s l r hsome
+
+/-- **rfc_wf**: the full RFC 3986 grammar (reg-name with non-empty labels | IPv4address |
+`[` IPv6address (`%` zone)? `]`, optional `:` *DIGIT) is inside `WfAuthority`, so all theorems
+of this file hold for every RFC 3986 authority. -/
+theorem rfc_wf (a : Authority) (h : isRfc3986 a = true) : WfAuthority a := by
+  obtain ⟨host, port⟩ := a
+  simp only [isRfc3986, Bool.and_eq_true] at h
+  obtain ⟨hh, hp⟩ := h
+  refine ⟨?_, ?_⟩
+  · cases host with
+    | name ls dot =>
+      simp only [isRfcHost, Bool.and_eq_true, List.all_eq_true,
+        Bool.not_eq_eq_eq_not, Bool.not_true] at hh
+      obtain ⟨⟨hne, hall⟩, hv4⟩ := hh
+      refine ⟨?_, ?_, ?_, ?_⟩
+      · intro h; subst h; simp at hne
+      · intro l hl
+        apply List.all_eq_true.mpr
+        intro c hc
+        exact regNameByte_ok c ((hall l hl).2 c hc)
+      · intro hlast
+        have hm : ([] : Bytes) ∈ ls := List.mem_of_getLast? hlast
+        have := (hall [] hm).1
+        simp at this
+      · rintro ⟨hlen, hoct⟩
+        have : (ls.length == 4 && ls.all isDecOctet) = true := by
+          simp [hlen, List.all_eq_true]; exact hoct
+        rw [this] at hv4
+        exact absurd hv4 (by simp)
+    | ip4 a b c d =>
+      simp only [isRfcHost, Bool.and_eq_true] at hh
+      exact ⟨hh.1.1.1, hh.1.1.2, hh.1.2, hh.2⟩
+    | ip6 addr z =>
+      simp only [isRfcHost, Bool.and_eq_true] at hh
+      exact ipv6_has_colon addr hh.1
+  · cases port with
+    | none => trivial
+    | some p => exact hp
+
+example : WfAuthority ex_v6_1 := rfc_wf _ (by decide)
+example : WfAuthority ex_v6_1p := rfc_wf _ (by decide)
+example : WfAuthority ex_v4_a := rfc_wf _ (by decide)
+example : WfAuthority ex_n_a := rfc_wf _ (by decide)
+example : WfAuthority ex_n_c := rfc_wf _ (by decide)
+
+/-- `[2001:db8::8:800:200c:417a%eth0]:8080` is an RFC 3986 authority. -/
+example : isRfc3986 ⟨.ip6 [50,48,48,49,58,100,98,56,58,58,56,58,56,48,48,58,50,48,48,99,58,52,49,55,97]
+    (some [101,116,104,48]), some [56,48,56,48]⟩ = true := by decide
+example : isRfc3986 ex_n_c = true := by decide
+example : isRfc3986 ex_v4_a = true := by decide
+/-- `::ffff:1.2.3.4` is an IPv6address, `1::2::3` and `1:2:3:4:5:6:7:8:9` are not. -/
+example : isIPv6address [58,58,102,102,102,102,58,49,46,50,46,51,46,52] = true := by decide
+example : isIPv6address [49,58,58,50,58,58,51] = false := by decide
+example : isIPv6address [49,58,50,58,51,58,52,58,53,58,54,58,55,58,56,58,57] = false := by decide
+
+/-! ## 2. Hop limit, disabled redirects, composition -/
+
+/-- **max_redirect**: MaxRedirectPolicy(n) lets the next hop through iff fewer than `n` requests
+have been made so far (`len(via) < n`; `via` includes the original request, so — like net/http's
+own default — `n` bounds the number of REQUESTS, i.e. at most `n - 1` redirects are followed). -/
+theorem max_redirect (n : Int) (req : Bytes) (via : Via) :
+    (maxRedirectPolicy n).check req via = .allow ↔ (via.length : Int) < n :=
+  max_check_iff n req via
+
+example : (maxRedirectPolicy 3).check [] ⟨⟨[], []⟩, [⟨[], []⟩]⟩ = .allow := by decide
+example : (maxRedirectPolicy 3).check [] ⟨⟨[], []⟩, [⟨[], []⟩, ⟨[], []⟩]⟩ = .deny := by decide
+example : (maxRedirectPolicy 0).check [] ⟨⟨[], []⟩, []⟩ = .deny := by decide
+
+/-- **no_redirect**: NoRedirectPolicy never allows, and what it returns is the
+"use the last response" sentinel, for every request and history. -/
+theorem no_redirect (req : Bytes) (via : Via) : noRedirectPolicy.check req via = .useLast := rfl
+
+/-- **compose_all**: the closure installed by SetRedirectPolicy allows a hop iff EVERY non-nil
+policy allows it (the header state the policies see is irrelevant to the decision). -/
+theorem compose_all (ps : List (Option Policy)) (req : Bytes) (h : Headers) (via : Via) :
+    (compose ps req h via).1 = .allow ↔ ∀ p, some p ∈ ps → p.check req via = .allow :=
+  compose_allow_iff ps req h via
+
+/-- **compose_first_refusal**: when the closure refuses, its error is the error of the first
+policy that refuses (everything before it allowed; nil entries are skipped). -/
+theorem compose_first_refusal (ps : List (Option Policy)) (req : Bytes) (h : Headers) (via : Via)
+    (d : Decision) (hd : d ≠ .allow) (hr : (compose ps req h via).1 = d) :
+    ∃ pre p post, ps = pre ++ some p :: post ∧ (∀ q, some q ∈ pre → q.check req via = .allow) ∧
+      p.check req via = d :=
+  compose_refusal ps req h via d hd hr
+
+example : (compose [none, some (maxRedirectPolicy 5), some sameHostRedirectPolicy] ex_v6_1p.render []
+    (viaOf ex_v6_1)).1 = .allow := by decide
+example : (compose [some noRedirectPolicy, some (maxRedirectPolicy 0)] [] [] (viaOf ex_v6_1)).1 = .useLast := by
+  decide
+example : (compose [some (maxRedirectPolicy 0), some noRedirectPolicy] [] [] (viaOf ex_v6_1)).1 = .deny := by
+  decide
+
+/-! ## 3. Chains -/
+
+/-- **no_request_without_permission** (the credential clause): in every redirect chain, every
+request after the first was permitted by EVERY configured policy, evaluated on the target's
+authority and on exactly the requests sent before it. Contrapositive: an origin any policy
+refuses receives no request at all — hence no header, no credential. -/
+theorem no_request_without_permission (ps : List (Option Policy)) (h0 : Hop) (targets : List Bytes)
+    (k : Nat) (hk : k + 1 < (runChain ps h0 targets).1.length) :
+    ∀ p, some p ∈ ps →
+      p.check ((runChain ps h0 targets).1[k + 1]).host
+        ⟨h0, ((runChain ps h0 targets).1.drop 1).take k⟩ = .allow := by
+  obtain ⟨later, hs⟩ := follow_spec ps h0.hdr targets { via := { first := h0 } }
+  have hsent : (runChain ps h0 targets).1 = h0 :: later := by
+    simpa [runChain, Via.toList] using hs.sent
+  intro p hp
+  have hk' : k < later.length := by rw [hsent] at hk; simpa using hk
+  have := allPermitted_get ps h0 [] later hs.permitted k hk' p hp
+  simpa [hsent] using this
+
+/-- **sent_hosts_prefix**: requests go to the chain's origins in order, nowhere else. -/
+theorem sent_hosts_prefix (ps : List (Option Policy)) (h0 : Hop) (targets : List Bytes) :
+    (runChain ps h0 targets).1.map (·.host) =
+      (h0.host :: targets).take (runChain ps h0 targets).1.length := by
+  obtain ⟨later, hs⟩ := follow_spec ps h0.hdr targets { via := { first := h0 } }
+  have hsent : (runChain ps h0 targets).1 = h0 :: later := by
+    simpa [runChain, Via.toList] using hs.sent
+  rw [hsent]
+  simp [hs.hosts]
+
+/-- **stops_only_on_refusal** (the converse: policies are enforced *exactly*): if the chain was
+not followed to its end, some configured policy refused the very next target given what had
+been sent; and the outcome is `final` iff every target was requested. -/
+theorem stops_only_on_refusal (ps : List (Option Policy)) (h0 : Hop) (targets : List Bytes) :
+    let sent := (runChain ps h0 targets).1
+    ((runChain ps h0 targets).2 = .final ↔ sent.length = targets.length + 1) ∧
+    (sent.length < targets.length + 1 →
+      ∃ t, targets[sent.length - 1]? = some t ∧
+        ∃ p, some p ∈ ps ∧ p.check t ⟨h0, sent.drop 1⟩ ≠ .allow) := by
+  obtain ⟨later, hs⟩ := follow_spec ps h0.hdr targets { via := { first := h0 } }
+  have hsent : (runChain ps h0 targets).1 = h0 :: later := by
+    simpa [runChain, Via.toList] using hs.sent
+  simp only [hsent]
+  refine ⟨?_, ?_⟩
+  · have := hs.final
+    simp only [runChain] at this ⊢
+    rw [this]; simp
+  · intro hlt
+    have hlt' : later.length < targets.length := by simpa using hlt
+    obtain ⟨t, ht, p, hp, hne⟩ := hs.stop hlt'
+    exact ⟨t, by simpa using ht, p, hp, by simpa using hne⟩
+
+/-- **chain_bound**: with MaxRedirectPolicy(n) anywhere in the composition, no chain — however
+long, whatever the other policies — gets more than `max 1 n` requests (the original one plus at
+most `n - 1` redirects). -/
+theorem chain_bound (ps : List (Option Policy)) (n : Int) (hn : some (maxRedirectPolicy n) ∈ ps)
+    (h0 : Hop) (targets : List Bytes) :
+    ((runChain ps h0 targets).1.length : Int) ≤ max 1 n := by
+  obtain ⟨later, hs⟩ := follow_spec ps h0.hdr targets { via := { first := h0 } }
+  have hsent : (runChain ps h0 targets).1 = h0 :: later := by
+    simpa [runChain, Via.toList] using hs.sent
+  have := allPermitted_bound ps n hn h0 [] later hs.permitted
+  rw [hsent]
+  simp only [List.length_nil, List.length_cons] at this ⊢
+  omega
+
+/-- **chain_max_exact**: with MaxRedirectPolicy(n) alone the limit is met exactly: the number of
+requests is `min (chain length) (max 1 n)` — never fewer than allowed, never more. -/
+theorem chain_max_exact (n : Int) (h0 : Hop) (targets : List Bytes) :
+    ((runChain [some (maxRedirectPolicy n)] h0 targets).1.length : Int) =
+      min ((targets.length : Int) + 1) (max 1 n) := by
+  have hb := chain_bound [some (maxRedirectPolicy n)] n (by simp) h0 targets
+  obtain ⟨later, hs⟩ := follow_spec [some (maxRedirectPolicy n)] h0.hdr targets { via := { first := h0 } }
+  have hsent : (runChain [some (maxRedirectPolicy n)] h0 targets).1 = h0 :: later := by
+    simpa [runChain, Via.toList] using hs.sent
+  rw [hsent] at hb ⊢
+  have hlen := hs.len
+  simp only [List.length_cons] at hb ⊢
+  by_cases hlt : later.length < targets.length
+  · obtain ⟨t, _, p, hp, hne⟩ := hs.stop hlt
+    have hp' : p = maxRedirectPolicy n := by simpa using hp
+    subst hp'
+    have := mt (max_redirect n t _).mpr hne
+    simp only [Via.length, List.nil_append] at this
+    omega
+  · omega
+
+/-- **no_redirect_never**: with NoRedirectPolicy anywhere in the composition only the original
+request is ever sent, and a chain that wanted to redirect does not end `final`. -/
+theorem no_redirect_never (ps : List (Option Policy)) (hn : some noRedirectPolicy ∈ ps)
+    (h0 : Hop) (targets : List Bytes) :
+    (runChain ps h0 targets).1 = [h0] ∧
+      (targets ≠ [] → (runChain ps h0 targets).2 ≠ .final) := by
+  obtain ⟨later, hs⟩ := follow_spec ps h0.hdr targets { via := { first := h0 } }
+  have hsent : (runChain ps h0 targets).1 = h0 :: later := by
+    simpa [runChain, Via.toList] using hs.sent
+  have hl : later = [] := allPermitted_no ps hn h0 [] later hs.permitted
+  subst hl
+  refine ⟨hsent, ?_⟩
+  intro hne hfin
+  have := hs.final.mp (by simpa [runChain] using hfin)
+  cases targets with
+  | nil => exact hne rfl
+  | cons t ts => simp at this
+
+/-- Non-vacuity / exactness of the bound: with MaxRedirectPolicy(3) alone a chain of five
+origins gets exactly three requests and the caller gets the refusal at hop 3. -/
+example :
+    (runChain [some (maxRedirectPolicy 3)] ⟨[97], []⟩ [[98], [99], [100], [101]]).1.map (·.host)
+      = [[97], [98], [99]] ∧
+    (runChain [some (maxRedirectPolicy 3)] ⟨[97], []⟩ [[98], [99], [100], [101]]).2 = .refused 3 := by
+  decide
+
+/-- SameHost + Max(5): `[::1]` → `[::1]:80` → `[::2]`: the third origin receives nothing. -/
+example :
+    (runChain [some sameHostRedirectPolicy, some (maxRedirectPolicy 5)] ⟨ex_v6_1.render, []⟩
+      [ex_v6_1p.render, ex_v6_2.render]).1.map (·.host) = [ex_v6_1.render, ex_v6_1p.render] := by
+  decide
+
+/-! ## 4. Headers -/
+
+/-- **always_copy_exact**: after AlwaysCopyHeaderRedirectPolicy(hs…) has run, for every header
+name `k`: if `k` is listed (names compared in canonical MIME form) and the new request had no
+value for it, it now has exactly the ORIGINAL request's (`via[0]`) values; in every other case
+the new request's values are unchanged. Nothing is copied from intermediate hops, nothing
+unlisted is added. -/
+theorem always_copy_exact (hs : List Bytes) (req : Headers) (via : Via) (k : Bytes) :
+    ((alwaysCopyHeaderRedirectPolicy hs).xform req via).values k =
+      if (∃ h ∈ hs, canonicalMIMEHeaderKey h = canonicalMIMEHeaderKey k) ∧ req.values k = []
+      then via.first.hdr.values k else req.values k :=
+  alwaysCopy_values hs req via.first.hdr k
+
+/-- …and it never refuses. -/
+theorem always_copy_allows (hs : List Bytes) (req : Bytes) (via : Via) :
+    (alwaysCopyHeaderRedirectPolicy hs).check req via = .allow := rfl
+
+/-- "authorization" listed in lower case; the redirected request lost `Authorization`
+(stripped by net/http), kept `X-A`: it gets the original token back, `X-A` is untouched. -/
+example :
+    let via : Via := ⟨⟨[], [(hAuthorization, [[116]]), ([88, 45, 65], [[49]])]⟩, []⟩
+    let out := (alwaysCopyHeaderRedirectPolicy [[97,117,116,104,111,114,105,122,97,116,105,111,110]]).xform
+      [([88, 45, 65], [[50]])] via
+    out.values hAuthorization = [[116]] ∧ out.values [88, 45, 65] = [[50]] := by decide
+
+/-- **header_flow_exact**: along any chain, under any composition of redirect.go's policies,
+the values of ANY header `k` on the (j+1)-th redirected request are exactly:
+nothing, if `k` is sensitive (Authorization, Www-Authenticate, Cookie, Cookie2), some hop so far
+left the original host's domain (Go's cross-origin rule, sticky) and no AlwaysCopy policy lists
+`k`; the original request's values otherwise. -/
+theorem header_flow_exact (ds : List PolicyDesc) (h0 : Hop) (targets : List Bytes) (k : Bytes)
+    (j : Nat) (hj : j + 1 < (runChain (ds.map PolicyDesc.denote) h0 targets).1.length) :
+    ((runChain (ds.map PolicyDesc.denote) h0 targets).1[j + 1]).hdr.values k =
+      if crossed h0.host (targets.take (j + 1)) = true ∧ isSensitive k = true ∧ copyListed ds k = false
+      then [] else h0.hdr.values k := by
+  obtain ⟨later, hs, hh⟩ := follow_headers ds h0.hdr k targets { via := { first := h0 } } rfl
+  have hsent : (runChain (ds.map PolicyDesc.denote) h0 targets).1 = h0 :: later := by
+    simpa [runChain, Via.toList] using hs
+  have hj' : j < later.length := by rw [hsent] at hj; simpa using hj
+  have := hh j hj'
+  simp only [Bool.false_or] at this
+  simpa [hsent] using this
+
+/-- **sensitive_arrives_only_if** (credentials): a redirected request carries a sensitive header
+only if every hop so far stayed within the original host or its subdomains, or the caller
+explicitly listed that header in an AlwaysCopyHeaderRedirectPolicy — and by
+`no_request_without_permission` only hosts every policy accepts get a request in the first
+place. -/
+theorem sensitive_arrives_only_if (ds : List PolicyDesc) (h0 : Hop) (targets : List Bytes) (k : Bytes)
+    (hk : isSensitive k = true)
+    (j : Nat) (hj : j + 1 < (runChain (ds.map PolicyDesc.denote) h0 targets).1.length)
+    (harr : ((runChain (ds.map PolicyDesc.denote) h0 targets).1[j + 1]).hdr.values k ≠ []) :
+    crossed h0.host (targets.take (j + 1)) = false ∨ copyListed ds k = true := by
+  rw [header_flow_exact ds h0 targets k j hj] at harr
+  cases hc : crossed h0.host (targets.take (j + 1)) with
+  | false => exact Or.inl rfl
+  | true =>
+    cases hl : copyListed ds k with
+    | true => exact Or.inr rfl
+    | false => simp [hc, hk, hl] at harr
+
+/-- a.com → b.com → a.com with `Authorization: t`, SameDomain not configured, Max(5):
+b.com does not get the token, and neither does a.com afterwards (sticky); with
+AlwaysCopy("authorization") both do. -/
+example :
+    let a : Bytes := [97, 46, 99, 111, 109]
+    let b : Bytes := [98, 46, 99, 111, 109]
+    let h0 : Hop := ⟨a, [(hAuthorization, [[116]])]⟩
+    ((runChain ([PolicyDesc.max 5].map PolicyDesc.denote) h0 [b, a]).1.map
+        fun h => h.hdr.values hAuthorization) = [[[116]], [], []] ∧
+    ((runChain ([PolicyDesc.max 5, .alwaysCopy [[97,117,116,104,111,114,105,122,97,116,105,111,110]]].map
+        PolicyDesc.denote) h0 [b, a]).1.map
+        fun h => h.hdr.values hAuthorization) = [[[116]], [[116]], [[116]]] := by decide
+
+end Req.Props.C11
